@@ -13,8 +13,10 @@ strict DER, RFC 8032 with both group equations), ref.ec.  Four demands:
   (iii) byte equality sign() output == model output (PKCS#1 v1.5, RFC 6979, EdDSA; PSS with salt = the tape bytes;
                       FIPS (EC)DSA with the nonce the tape is mapped to)
   (iv)  repeatability same objects => same outcome; hash / XOF objects are not consumed
+  (v)   lifetime      ONE signer / verifier object driven through a history that varies what may vary per call (hash
+                      algorithm; pure vs pre-hashed EdDSA input): every outcome equals the model's / a fresh object's
 
-Workloads live in aux_c04_rsa.py, aux_c04_dss.py, aux_c04_ed.py; the oracle glue in aux_c04_common.py.
+Workloads live in aux_c04_rsa.py, aux_c04_dss.py, aux_c04_ed.py, aux_c04_life.py; the oracle glue in aux_c04_common.py.
 """
 
 RULE = ("case = (scheme, key class [RSA bits, e | DSA L, N | curve], hash, encoding / salt class / mgf / context length, "
@@ -63,6 +65,8 @@ def plan(tier, seed):
         specs.append({"kind": "ed_edge", "idx": 0, "curves": ["Ed25519"]})
         specs.append({"kind": "ed_edge", "idx": 1, "curves": ["Ed448"]})
         specs.append({"kind": "shortkey", "idx": 0})
+        specs.append({"kind": "lifetime", "idx": 0, "what": ["Ed25519", "Ed448"], "budget_s": B})
+        specs.append({"kind": "lifetime", "idx": 1, "what": ["pkcs1_15", "pss", "dsa", "ecdsa"], "budget_s": B})
     else:
         for i, b in enumerate(bits):
             specs.append({"kind": "rsa15", "idx": i, "keys": [(b, ES[i % 3]), (b, ES[(i + 1) % 3])], "budget_s": B})
@@ -80,6 +84,8 @@ def plan(tier, seed):
         specs.append({"kind": "ed_edge", "idx": 0, "curves": ["Ed25519"]})
         specs.append({"kind": "ed_edge", "idx": 1, "curves": ["Ed448"]})
         specs.append({"kind": "shortkey", "idx": 0})
+        for i, w in enumerate(["Ed25519", "Ed448", "pkcs1_15", "pss", "dsa", "ecdsa"]):
+            specs.append({"kind": "lifetime", "idx": i, "what": [w], "budget_s": B})
     return specs
 
 
@@ -131,6 +137,12 @@ def finalize(agg, tier):
         for ln in ("1024/160", "2048/224", "2048/256", "3072/256"):
             for e in ("binary", "der"):
                 need("signed:dsa-%s:%s:%s" % (m, ln, e))
+    for s in ("eddsa-ed25519", "eddsa-ed448"):
+        for n in ("lifetime_histories", "lifetime_sign", "lifetime_judged", "lifetime_flag_candidates"):
+            need("%s:%s" % (n, s))
+    for s in ("pkcs1v15", "pss", "dsa-fips", "dsa-rfc6979", "ecdsa-fips", "ecdsa-rfc6979"):
+        for n in ("lifetime_histories", "lifetime_sign", "lifetime_judged"):
+            need("%s:%s" % (n, s))
     need("range_candidate_built:binary:s+q")
     need("range_candidate_built:binary:r+q")
     return out
@@ -145,6 +157,9 @@ def run(spec, ctx):
     elif kind in ("dsa", "ecdsa", "ecdsa_constructed"):
         from . import aux_c04_dss as mod
         need = ("ec", "sigs")
+    elif kind == "lifetime":
+        from . import aux_c04_life as mod
+        need = ("ec", "sigs", "rsa")
     else:
         from . import aux_c04_ed as mod
         need = ("ec", "sigs")
